@@ -114,6 +114,8 @@ def rare_kwargs(scn, rare):
                 return fl.X[0].copy(), np.array([0.0])
             if mode == "incumbent":
                 return np.array(u, dtype=float).ravel().copy(), np.array([0.0])
+            if mode == "empty":
+                return np.empty((0, np.size(u))), np.empty(0)  # every candidate of every generation was infeasible
             return None
         return dict(search_script=search_script)
     if kind == "nonfinite_predict":
@@ -170,7 +172,7 @@ def rare_strategy(prof):
             run = draw(st.integers(1, 4))
             rare = dict(kind=kind, idx=list(range(start, start + run)))
         elif kind == "es_all_infeasible":
-            rare = dict(kind=kind, modes=draw(st.lists(st.sampled_from(["evaluated", "incumbent", "real"]), min_size=1, max_size=4)))
+            rare = dict(kind=kind, modes=draw(st.lists(st.sampled_from(["evaluated", "incumbent", "real", "empty", "empty"]), min_size=1, max_size=4)))
         else:
             rare = dict(kind=kind, idx=sorted(set(draw(st.lists(st.integers(0, 40), min_size=1, max_size=6)))),
                         what=draw(st.sampled_from(["nan", "inf"])))
@@ -296,7 +298,9 @@ def run_part(res, part, tier, seed, shard, nshards):
         runlevel.sweep(res, prof, N[tier], seed, shard, nshards, body)
     else:
         runlevel.sweep(res, prof, N_RARE[tier], seed + 7919, shard, nshards, body_rare_safe,
-                       strategy=rare_strategy(dict(prof, p_subdesign=0.0, extra_budget=(10, 60))))
+                       strategy=rare_strategy(dict(prof, p_subdesign=0.0, extra_budget=(10, 60),
+                                                   # (an optimistic improvement quantile turns "nothing evaluated" into a positive number)
+                                                   extra_opts=(("improvement_quantile", (0.75, 0.6, 0.9), 0.3),))))
 
 
 def minimise(part, tier, sig, case, seed):
